@@ -315,6 +315,15 @@ fn logical_cases(seed: u64, tier: Tier) -> Vec<Logical> {
         v.push(dec("decrypt/valid-sender-has-a-case-twin-listed-first", fcase.clone(), &kr_twin_first, "bob", Some("bobpw"), true, &p1, Some("from:alicecase".to_string())));
         v.push(dec("decrypt/valid-sender-absent-but-a-case-twin-is-listed", fcase, &kr_twin_only, "bob", Some("bobpw"), true, &p1, Some(format!("unknown:{}", caseenc))));
     }
+    // key names containing '=': two entries "ops=alice" (the sender) and "ops=bob" (another key) share everything up to
+    // the second '='; the recipient is addressed as "to=bob"
+    {
+        let tobob = Party::new(seed, "to=bob", "bobpw");
+        let other = Party::new(seed, "ops=bob", "x");
+        let kr_eq = format!("{}\n{}\n{}", proc::keyring_entry("ops=bob", &other.pk_enc, None), proc::keyring_entry("ops=alice", &alice.pk_enc, None), tobob.entry(true));
+        let feq = r::write_key_file(&alice.sk, &tobob.pk, &e, &pay, &p1, &[500]).unwrap();
+        v.push(dec("decrypt/valid-names-contain-equals-signs", feq, &kr_eq, "to=bob", Some("bobpw"), true, &p1, Some("from:ops=alice".to_string())));
+    }
     // a forged, keyless ending: after an authentic non-final chunk (or right after the header) comes a record that
     // claims {last = 1, length 0} with 16 arbitrary bytes where the tag should be
     {
